@@ -15,7 +15,7 @@ levels, children = blocks of a set partition of the events into >= 2 blocks: n <
 each with its full outcome family.  In addition - because the first sentence of the property speaks of *the successor sets
 observed*, not only of complete outcome families - `sound` is also checked on arbitrary families of non-empty subsets:
 all 127 families over 3 events, a seeded sample of 4000 (thorough: all 32767) families over 4 events, and seeded *partial observations*
-(sub-families of 3-9 outcomes) of every enumerated gate tree - 40 (thorough 300) per tree whose top gate is an OR over plain events and a
+(sub-families of 3-9 outcomes) of every enumerated gate tree - 40 (thorough 100) per tree whose top gate is an OR over plain events and a
 nested gate, 1 (4) per other tree - and 1500 (thorough 20000) random families over 5 events, 500 (6000) over 6.
 And because an inference must be a function of the observed sets alone (no state carried from one event's inference to the next),
 `sound` is re-checked for ~500 (thorough ~3300) families after / before an inference over a *counted* variant of the same family
@@ -279,7 +279,7 @@ def main() -> int:
         outs = sorted(outcomes(t), key=lambda s_: (len(s_), sorted(s_)))
         if len(outs) < 4:
             continue
-        reps = (40 if a.tier == "quick" else 300) if mixed_or(t) and len({e for s_ in outs for e in s_}) >= 4 else (1 if a.tier == "quick" else 4)
+        reps = (40 if a.tier == "quick" else 100) if mixed_or(t) and len({e for s_ in outs for e in s_}) >= 4 else (1 if a.tier == "quick" else 4)
         for _ in range(reps):
             k = rng.randrange(3, min(len(outs), 9) + 1)
             partial.append(tuple(rng.sample(outs, k)))
